@@ -1,0 +1,61 @@
+// Copyright 2019 Samaritan Authors
+//
+// Licensed under the Apache License, Version 2.0 (the "License");
+// you may not use this file except in compliance with the License.
+// You may obtain a copy of the License at
+//
+//      http://www.apache.org/licenses/LICENSE-2.0
+//
+// Unless required by applicable law or agreed to in writing, software
+// distributed under the License is distributed on an "AS IS" BASIS,
+// WITHOUT WARRANTIES OR CONDITIONS OF ANY KIND, either express or implied.
+// See the License for the specific language governing permissions and
+// limitations under the License.
+
+//go:build verif
+// +build verif
+
+// Package verifexport re-exports, for the model-based verification harness
+// only (build tag "verif"), a few constructors of packages under
+// proc/internal that cannot be imported from outside the repository.
+package verifexport
+
+import (
+	"time"
+
+	"github.com/samaritan-proxy/samaritan/host"
+	pbhc "github.com/samaritan-proxy/samaritan/pb/config/hc"
+	"github.com/samaritan-proxy/samaritan/pb/config/service"
+	"github.com/samaritan-proxy/samaritan/proc/internal/hc"
+	"github.com/samaritan-proxy/samaritan/proc/internal/lb"
+)
+
+// Balancer is lb.Balancer.
+type Balancer interface {
+	Name() string
+	PickHost(hosts []*host.Host) *host.Host
+}
+
+// NewBalancer is lb.New.
+func NewBalancer(p service.LoadBalancePolicy) Balancer { return lb.New(p) }
+
+// SetRandInt replaces the random source used by the random and
+// least-connection balancers; the returned function restores it.
+func SetRandInt(fn func() int) (restore func()) { return lb.VerifSetRandInt(fn) }
+
+// Monitor is the health monitor of proc/internal/hc.
+type Monitor = hc.Monitor
+
+// CheckFunc is a scripted health checker (nil error = success).
+type CheckFunc func(addr string, timeout time.Duration) error
+
+// NewMonitor creates a health monitor over set whose checker is fn.
+func NewMonitor(cfg *pbhc.HealthCheck, set *host.Set, fn CheckFunc) (*Monitor, error) {
+	return hc.VerifNewMonitor(cfg, set, hc.VerifCheckFunc(fn))
+}
+
+// CheckOnce runs one synchronous check round over set.All().
+func CheckOnce(m *Monitor) { m.VerifCheckOnce() }
+
+// CheckHost runs one check of one host and updates its status.
+func CheckHost(m *Monitor, h *host.Host) { m.VerifCheckHost(h) }
